@@ -86,7 +86,7 @@ Definition w_holds_r (p : wpc) : bool :=
 (* the request being served is still requests[0] *)
 Definition w_main (p : wpc) : bool :=
   match p with
-  | WSvc | WApp | WWs1 _ | WWs2 _
+  | WSvc | WSvc2 | WApp | WWs1 _ | WWs2 _
   | WHw1 _ | WHwA | WHwF _ | WHwEP _ | WHwEW _ | WHwEPk _ _ | WHwEN _
   | WHwL1 _ | WHwL2 _ | WHwLP _ | WHwLW _ | WHwLPk _ | WHwLN _ | WHwRel
   | WWs3 _ | WWs4 _ | WWs5 | WWsF _ | WWs6 | WWsP | WWsRel | WCdRel
